@@ -34,10 +34,17 @@ const (
 	Horizon          // step horizon exceeded
 	Pruned           // stopped by the state cache
 	Diverged         // replay of the prefix did not reproduce the recorded points
+	Livelock         // nothing but forced ENV firings (timers) has kept the execution going for LivelockEnvStreak firings in a row
 )
 
+// LivelockEnvStreak is the number of consecutive forced ENV firings, without a single decision at which two threads
+// could run in between, after which an execution is declared a livelock: the scheduler never had a say (at most the
+// moment at which a timer fires was open), and still the execution does not come to rest - every thread that exists is
+// blocked for good or spins on a timer.
+const LivelockEnvStreak = 64
+
 func (o Outcome) String() string {
-	return [...]string{"running", "ok", "deadlock", "panic", "horizon", "pruned", "diverged"}[o]
+	return [...]string{"running", "ok", "deadlock", "panic", "horizon", "pruned", "diverged", "livelock"}[o]
 }
 
 // ChoicePoint is one recorded decision.
@@ -135,6 +142,7 @@ type Exec struct {
 	ReleasePoints bool
 	SelectCost    int8
 	envUsed       int
+	forcedEnv     int // consecutive forced ENV firings since the last decision with two runnable threads
 	EnvFired      int
 
 	// state cache hook; returns true if the state has been seen (prune)
@@ -424,7 +432,12 @@ func (e *Exec) reschedule(t *Thread) {
 		if envOK {
 			n++
 		}
-		if n == 0 {
+		if len(opts) > 1 {
+			e.forcedEnv = 0
+		} else if n == 1 && len(opts) == 0 {
+			e.forcedEnv++
+		}
+		if n == 0 || e.forcedEnv >= LivelockEnvStreak {
 			e.collectWhere(t)
 			e.Blocked = e.Blocked[:0]
 			for _, o := range e.threads {
@@ -432,7 +445,11 @@ func (e *Exec) reschedule(t *Thread) {
 					e.Blocked = append(e.Blocked, fmt.Sprintf("T%d:%s@%s#%d", o.ID, o.pkind, o.Where, o.pobj))
 				}
 			}
-			e.finish(Deadlock)
+			if n == 0 {
+				e.finish(Deadlock)
+			} else {
+				e.finish(Livelock)
+			}
 			if t != nil {
 				t.park(e)
 			}
